@@ -401,7 +401,19 @@ def node_get_row(c):
 
 # ------------------------------------------------------------------------------------------ keep_rows helpers
 rank = z3.Function("rank", z3.IntSort(), z3.IntSort())          # rank(j) = #{i < j : keep[i]}
-newoff = z3.Function("newoff", z3.IntSort(), z3.IntSort())      # bytes of the kept rows before row j
+_newoff_fns = {}
+
+
+def newoff_of(off):
+    """ghost: newoff_of(off)(j) = bytes of the kept rows before row j of the ragged column with boundaries `off`
+    (one unary function per column - named after the array term of its boundaries - so that tables with several ragged
+    columns can be described and concrete contract testing can pin the function down)"""
+    import hashlib
+    key = off.sexpr()
+    if key not in _newoff_fns:
+        tag = key if len(key) <= 48 and "(" not in key else hashlib.sha1(key.encode()).hexdigest()[:10]
+        _newoff_fns[key] = z3.Function("newoff<%s>" % tag, z3.IntSort(), z3.IntSort())
+    return _newoff_fns[key]
 
 
 def rank_axioms(keep, n):
@@ -415,6 +427,7 @@ def rank_axioms(keep, n):
 
 
 def newoff_axioms(keep, off, n):
+    newoff = newoff_of(off)
     return z3.And(
         newoff(0) == 0,
         z3.ForAll([j], z3.Implies(z3.And(0 <= j, j < n),
@@ -521,6 +534,7 @@ def subset_ragged_char_column(c):
     c.requires(z3.And(off0[0] == 0, z3.ForAll([i, k], z3.Implies(z3.And(0 <= i, i <= k, k <= n), off0[i] <= off0[k]))))
     c.requires(z3.Implies(off0[n] > 0, z3.And(z3.Not(h.isnull(datap)), datap.off == 0, h.len(datap) >= off0[n])))
     c.requires(newoff_axioms(keep, off0, n))
+    newoff = newoff_of(off0)
     d0 = h.arr(datap) if datap.region is not None else None
 
     def rows_placed(d, o, upto):
@@ -530,9 +544,18 @@ def subset_ragged_char_column(c):
             z3.ForAll([b_], z3.Implies(z3.And(0 <= b_, b_ < off0[i + 1] - off0[i]),
                                        d[newoff(i) + b_] == d0[off0[i] + b_])))))
 
+    a_, a2_ = z3.Ints("a a2")
+
+    def prefix_sorted(o, kk, offset):
+        """the new boundaries written so far start at 0, never decrease and do not exceed the bytes written"""
+        return z3.And(z3.ForAll([a_, a2_], z3.Implies(z3.And(0 <= a_, a_ <= a2_, a2_ < kk), o[a_] <= o[a2_])),
+                      z3.ForAll([a_], z3.Implies(z3.And(0 <= a_, a_ < kk), o[a_] <= offset)),
+                      z3.Implies(kk > 0, o[0] == 0), z3.Implies(kk == 0, offset == 0))
+
     def inv_outer(s):
         d, o = s.arr(datap), s.arr(offp)
         return z3.And(0 <= s.j, s.j <= n, s.k == rank(s.j), s.offset == newoff(s.j),
+                      prefix_sorted(o, s.k, s.offset),
                       rows_placed(d, o, s.j),
                       z3.ForAll([i], z3.Implies(z3.And(s.j <= i, i <= n), o[i] == off0[i])),
                       z3.ForAll([b_], z3.Implies(z3.And(off0[s.j] <= b_, b_ < off0[n]), d[b_] == d0[b_])))
@@ -542,6 +565,7 @@ def subset_ragged_char_column(c):
         jj = s.j
         return z3.And(0 <= jj, jj < n, keep[jj] != 0, s.k == rank(jj), off0[jj] <= s.i, s.i <= off0[jj + 1],
                       s.offset == newoff(jj) + (s.i - off0[jj]),
+                      prefix_sorted(o, s.k + 1, s.offset),
                       rows_placed(d, o, jj), o[rank(jj)] == newoff(jj),
                       z3.ForAll([b_], z3.Implies(z3.And(0 <= b_, b_ < s.i - off0[jj]),
                                                  d[newoff(jj) + b_] == d0[off0[jj] + b_])),
@@ -555,6 +579,9 @@ def subset_ragged_char_column(c):
         d, o = c.new.arr(datap), c.new.arr(offp)
         return z3.And(c.result == newoff(n), o[rank(n)] == newoff(n), rows_placed(d, o, n))
     c.ensures(post, "kept_rows_keep_their_bytes_and_boundaries")
+    c.ensures(lambda: z3.And(c.new.arr(offp)[0] == 0, z3.ForAll([a_, a2_], z3.Implies(
+        z3.And(0 <= a_, a_ <= a2_, a2_ <= rank(n)), c.new.arr(offp)[a_] <= c.new.arr(offp)[a2_]))),
+        "new_boundaries_start_at_zero_and_never_decrease")
     c.assigns(datap)
     c.assigns(offp)
 
